@@ -101,7 +101,7 @@ func ShapesBasic() []eng.Shape {
 	}
 }
 
-var allTwinSets = [][]string{{}, {"x"}, {"y"}, {"x", "y"}, {"xy"}, {"x", "xy"}, {"n"}, {"n.a"}, {"n", "n.a"}, {"y", "x"}}
+var allTwinSets = [][]string{{}, {"x"}, {"y"}, {"x", "y"}, {"xy"}, {"x", "xy"}, {"n"}, {"n.a"}, {"n", "n.a"}, {"y", "x"}, {"_id"}, {"_id", "x"}}
 
 // Twins: every index set built with indexes created first, plus selected sets built in every order.
 func Twins(allOrders bool) []eng.Twin {
